@@ -167,4 +167,9 @@ def run(ctx, report: Report) -> None:
     from .e2ematch import lang_pipeline_table
     lang_pipeline_table(ctx, r8)
 
+    # language ranges: quoting, escapes, comments in the list
+    from .e2etab import equivalent_spellings_table
+    equivalent_spellings_table(ctx, r8, only=(':lang', 'identifier range'))
+
+
 
